@@ -42,6 +42,7 @@ impl Env {
         hooks::set_ctx(Some(Arc::clone(&self.ctx)));
     }
     pub fn leave(&self) {
+        self.ctx.release_ticks();
         hooks::set_ctx(None);
     }
     /// To be called after every operation: files created by it get the current virtual instant.
@@ -54,6 +55,7 @@ impl Env {
 }
 impl Drop for Env {
     fn drop(&mut self) {
+        self.ctx.release_ticks();
         hooks::set_ctx(None);
     }
 }
